@@ -327,7 +327,7 @@ Definition outcome_matches (m : outcome unit str) (o : option str) : bool :=
   end.
 
 (* verdict codes: 0 agree; 99 oracle assumption violated (a visible flagged node but !has_error()); 1 all; 2 first; 3 into_all; 4 into_first;
-   5 plain display text/panic differs; 6 pretty display differs; 7 citation flags differ from the
+   12 a display of a reported error panicked (property-level failure); 5 plain display text differs from the model's; 6 pretty display text differs; 7 citation flags differ from the
    model's text; 8 model did not return Ok; 9 observation lists malformed; 10 moved display differs;
    11 a display of a reported error does not cite "path:row+1:col+1:" (property-level failure, judged on
    the flags computed by the harness from the real text, independently of the model) *)
@@ -340,9 +340,11 @@ Fixpoint disp_verdict (path src : str) (pos : list (N * npos)) (l : list perr) (
       | Some p =>
           let mp := display_plain path src k p in
           let mq := display_pretty path src k p in
-          if negb (outcome_matches mp (d_plain d)) then 5
-          else if negb (outcome_matches mq (d_pretty d)) then 6
+          (* property-level failures first, judged on the real text alone: a display panicked (12) or does not cite (11) *)
+          if match d_plain d, d_pretty d with Some _, Some _ => false | _, _ => true end then 12
           else if negb (d_cites_plain d && d_cites_pretty d) then 11
+          else if negb (outcome_matches mp (d_plain d)) then 5
+          else if negb (outcome_matches mq (d_pretty d)) then 6
           else
             let c := cite path (np_row p) (np_col p) in
             let cp := match mp with Ok s => is_prefix c s | _ => false end in
